@@ -417,14 +417,46 @@ func extPrintln(fr *frame, args []value) value {
 func extSprint(fr *frame, args []value) value   { return fr.sprint(varargs(args[0]), false) }
 func extSprintln(fr *frame, args []value) value { return fr.sprint(varargs(args[0]), true) }
 
+// toStream decides where an Fprint* goes. Standard output is the stdout
+// buffer; any other *os.File written by library code is an effect C10
+// excludes (the driver may write where it likes: discarded); other writers
+// are outside the model.
+func (fr *frame) toStream(w value, what string) bool {
+	if x, ok := w.(iface); ok {
+		if ptr, ok := x.v.(*value); ok {
+			if ptr == fr.i.stdStreams["Stdout"] {
+				return true
+			}
+			if x.t != nil && x.t.String() == "*os.File" {
+				if callerIsDriver(fr.caller) {
+					return false
+				}
+				name := what + " to a file other than standard output"
+				if ptr == fr.i.stdStreams["Stderr"] {
+					name = "use of os.Stderr"
+				}
+				fr.i.forbidden(name, "output other than standard output", fr.caller)
+			}
+		}
+	}
+	fr.i.path.unsupported("%s to a writer that is not a file", what)
+	return false
+}
+
 func extFprintf(fr *frame, args []value) value {
+	out := fr.toStream(args[0], "fmt.Fprintf")
 	s := fr.sprintf(args[1], varargs(args[2]), false)
-	fr.i.path.writeStdout(s)
+	if out {
+		fr.i.path.writeStdout(s)
+	}
 	return tuple{fr.i.path.outLen(s), iface{}}
 }
 
 func extFprintln(fr *frame, args []value) value {
+	out := fr.toStream(args[0], "fmt.Fprintln")
 	s := fr.sprint(varargs(args[1]), true)
-	fr.i.path.writeStdout(s)
+	if out {
+		fr.i.path.writeStdout(s)
+	}
 	return tuple{fr.i.path.outLen(s), iface{}}
 }
